@@ -9,7 +9,8 @@ from concurrent.futures import ThreadPoolExecutor
 
 ROOT = os.path.dirname(os.path.abspath(__file__))
 ADIR = os.path.join(ROOT, "harness", "adapters")
-REPO_ADAPTERS = "/repo/pkg/adapters"
+REPO = os.path.abspath(os.environ.get("VERIF_REPO") or "/repo")
+REPO_ADAPTERS = os.path.join(REPO, "pkg", "adapters")
 BUILD = os.path.join(ROOT, ".build", "C19")
 
 # adapters that cannot be compiled in this sandbox against their real frameworks (see DESIGN.md, C19)
@@ -42,13 +43,13 @@ def run_adapter(job):
     os.makedirs(bdir)
     src = os.path.join(REPO_ADAPTERS, a)
     mod = open(os.path.join(src, "go.mod")).read()
-    mod = mod.replace("=> ../../../", "=> /repo")
+    mod = mod.replace("=> ../../../", "=> " + REPO)
     mod += "\nrequire pgregory.net/rapid v1.3.0\n"
     open(os.path.join(bdir, "go.mod"), "w").write(mod)
     summ = open(os.path.join(src, "go.sum")).read()
     summ += "".join(l for l in open(os.path.join(ROOT, "harness", "go.sum")) if "pgregory.net/rapid" in l)
-    if "=> /repo" in mod:
-        summ += open("/repo/go.sum").read()
+    if "=> " + REPO in mod:
+        summ += open(os.path.join(REPO, "go.sum")).read()
     open(os.path.join(bdir, "go.sum"), "w").write(summ)
     pkg = job["package"]
     common = open(os.path.join(ADIR, "common", "common.go.tmpl")).read().replace("PKGNAME", pkg)
@@ -126,7 +127,7 @@ def main():
     for a, p in plan["adapters"].items():
         if replay and not os.path.basename(replay).startswith("C19-" + a + "-"):
             continue
-        checks = p.get("checks", {}).get(tier, 150 if tier == "quick" else 3000)
+        checks = p.get("checks", {}).get(tier, 600 if tier == "quick" else 8000)
         jobs.append({"adapter": a, "tier": tier, "seed": seed, "checks": checks, "package": p["package"], "exits_before": p.get("exits_before", []),
                      "mask_own_tests": p.get("mask_own_tests", True), "replay": replay})
     with ThreadPoolExecutor(max_workers=8) as ex:
